@@ -338,6 +338,19 @@ EQUIVALENTS = [
       (MF, "            if any(i in indices for indices in track_indices):\n                group_indices", "            if in_group:\n                group_indices"),
       (MF, "if msg.message_type == MessageType.NOTE_ON and any(i in indices for indices in track_indices):", "if msg.message_type == MessageType.NOTE_ON and in_group:"),
       (MF, "elif msg.message_type == MessageType.NOTE_OFF and any(i in indices for indices in track_indices):", "elif msg.message_type == MessageType.NOTE_OFF and in_group:")]),
+    ("normalise-setdefault", ("C07", "C15"), [(REL,
+      "                    note_list = open_messages[msg.channel].get(msg.note, [])\n                    note_list.append(msg)\n                    open_messages[msg.channel][msg.note] = note_list\n",
+      "                    note_list = open_messages[msg.channel].setdefault(msg.note, [])\n                    note_list.append(msg)\n")]),
+    ("bars-while-true-break", ("C09",), [(SEQ, "        while not tracks_synchronised:\n", "        while True:\n            if tracks_synchronised:\n                break\n")]),
+    ("pairings-get-with-default", ("C06", "C17"), [(ABS,
+      "                    if msg.channel not in open_messages or msg.note not in open_messages[msg.channel]:",
+      "                    if msg.note not in open_messages.get(msg.channel, {}):")]),
+    ("cutoff-length-in-a-local", ("C18",), [(ABS,
+      "                    if message_pairing[1].time - message_pairing[0].time > maximum_length:\n",
+      "                    note_length = message_pairing[1].time - message_pairing[0].time\n                    if note_length > maximum_length:\n")]),
+    ("closest-duration-by-min-key", ("C06", "C09"), [(ABS,
+      "                    best_fit = valid_durations[find_minimal_distance(current_duration, valid_durations)]",
+      "                    best_fit = min(valid_durations, key=lambda duration: abs(duration - current_duration))")]),
     ("transpose-shift-helper", ("C14",), [(REL,
       "                msg.note += transpose_by\n                while msg.note < NOTE_LOWER_BOUND:\n                    had_to_shift = True\n                    msg.note += 12\n                while msg.note > NOTE_UPPER_BOUND:\n                    had_to_shift = True\n                    msg.note -= 12\n",
       "                if RelativeSequence._shift_note(msg, transpose_by):\n                    had_to_shift = True\n"),
